@@ -128,7 +128,8 @@ Record result := mkRes {
   r_status : status;        (* notify.State, or why there is no notify *)
   r_gas : N;                (* notify.GasConsumed *)
   r_fee_events : list N;    (* amounts of the payer -> governance transfer events appended by the charge *)
-  r_events : N              (* len(notify.Notify) *)
+  r_events : N;             (* len(notify.Notify) *)
+  r_req : option N          (* specification only: the amount handed to the charge's ONG transfer, if one was attempted *)
 }.
 
 (** * tuneGasFeeByHeight *)
@@ -148,7 +149,7 @@ Definition tune_fee (height tuneHeight gas round cur : N) : tuned :=
 (** * costInvalidGas: the fee goes through a FRESH CacheDB on the block overlay and is committed;
     the transaction's own cache (still holding the execution's writes) is left as it is — it is
     emptied by the Reset at the start of the next transaction and never committed. *)
-Definition fail_nocharge (s : state) : result := mkRes s StFail 0 [] 0.
+Definition fail_nocharge (s : state) : result := mkRes s StFail 0 [] 0 None.
 
 Definition fresh (s : state) : state := mkState [] (st_overlay s) (st_store s).
 
@@ -156,33 +157,33 @@ Definition fee_events (g : N) : list N := if g =? 0 then [] else [g].
 
 (** the charge returned an error: nothing of it is committed and GasConsumed stays 0
     ([XPanic]: MustToStorageItem's "too large token balance" panic, not an error return) *)
-Definition charge_failed (e : xerr) (s : state) : result :=
+Definition charge_failed (e : xerr) (s : state) (g : N) : result :=
   match e with
-  | XPanic => mkRes s StPanic 0 [] 0
-  | _ => mkRes s StFail 0 [] 0
+  | XPanic => mkRes s StPanic 0 [] 0 (Some g)
+  | _ => mkRes s StFail 0 [] 0 (Some g)
   end.
 
 Definition cost_invalid (tx : txp) (s : state) (g : N) : result :=
   match ong_transfer (t_signed tx) (t_payer tx) FEE_GOV_ADDR g (fresh s) with
-  | (_, Some e) => charge_failed e s                            (* the fresh cache is dropped *)
+  | (_, Some e) => charge_failed e s g                          (* the fresh cache is dropped *)
   | (f, None) =>
       let c := cache_commit f in
-      mkRes (mkState (st_cache s) (st_overlay c) (st_store s)) StFail g (fee_events g) (N.of_nat (length (fee_events g)))
+      mkRes (mkState (st_cache s) (st_overlay c) (st_store s)) StFail g (fee_events g) (N.of_nat (length (fee_events g))) (Some g)
   end.
 
 Definition tuned_cost_invalid (env : envp) (tx : txp) (s : state) (gas round cap : N) : result :=
   match tune_fee (e_height env) (e_tune env) gas round cap with
-  | TunePanic => mkRes s StPanic 0 [] 0
+  | TunePanic => mkRes s StPanic 0 [] 0 None
   | TuneVal g => cost_invalid tx s g
   end.
 
 (** * HandleInvokeTransaction from `sc := smartcontract.SmartContract{...}` on *)
 Definition exec_part (env : envp) (tx : txp) (ip : interp) (s : state) (is_charge : bool) (avail clg old : N) : result :=
   match ip s (fee_exec_gas avail clg) with
-  | None => mkRes s StNoProbe 0 [] 0
+  | None => mkRes s StNoProbe 0 [] 0 None
   | Some o =>
       let s1 := mkState (o_cache o) (st_overlay s) (st_store s) in
-      if o_internal o then mkRes s1 StBlockError 0 [] 0            (* overlay.SetError *)
+      if o_internal o then mkRes s1 StBlockError 0 [] 0 None            (* overlay.SetError *)
       else
         let cgl0 := fee_cost_limit avail (o_left o) in
         let cgl := if fee_cost_lt_min cgl0 then fee_cost_floor else cgl0 in
@@ -199,16 +200,16 @@ Definition exec_part (env : envp) (tx : txp) (ip : interp) (s : state) (is_charg
                 tuned_cost_invalid env tx s1 (fee_insuf_gas costGas) (fee_insuf_round (t_price tx)) (fee_insuf_cap old new)
               else
                 match tune_fee (e_height env) (e_tune env) (fee_ok_gas costGas) (fee_ok_round (t_price tx)) (fee_ok_cap old new) with
-                | TunePanic => mkRes s1 StPanic 0 [] 0
+                | TunePanic => mkRes s1 StPanic 0 [] 0 None
                 | TuneVal g =>
                     match ong_transfer (t_signed tx) (t_payer tx) FEE_GOV_ADDR g s1 with   (* chargeCostGas on sc.CacheDB *)
-                    | (s2, Some e) => charge_failed e s2
+                    | (s2, Some e) => charge_failed e s2 g
                     | (s2, None) =>
-                        mkRes (cache_commit s2) StSuccess g (fee_events g) (o_events o + N.of_nat (length (fee_events g)))
+                        mkRes (cache_commit s2) StSuccess g (fee_events g) (o_events o + N.of_nat (length (fee_events g))) (Some g)
                     end
                 end
           end
-        else mkRes (cache_commit s1) StSuccess costGas [] (o_events o)
+        else mkRes (cache_commit s1) StSuccess costGas [] (o_events o) None
   end.
 
 (** * HandleInvokeTransaction *)
@@ -216,7 +217,7 @@ Definition handle_invoke (env : envp) (tx : txp) (ip : interp) (s : state) : res
   let is_charge := negb (t_sys tx) && negb (t_price tx =? 0) in
   if is_charge then
     match e_codegas env with
-    | None => mkRes s StBlockError 0 [] 0                          (* overlay.SetError *)
+    | None => mkRes s StBlockError 0 [] 0 None                          (* overlay.SetError *)
     | Some codegas =>
         match get_balance s (t_payer tx) with
         | None => fail_nocharge s
